@@ -36,6 +36,21 @@ def source(path):
     return _SRC[path]
 
 
+_SRC_KEYS = {}
+
+
+def source_missing_keys(path):
+    """Record keys that are already absent from their data list in the SOURCE document (some fixtures keep
+    list entries in segment objects the validator does not follow): like references, only keys the save
+    newly leaves dangling are the library's doing."""
+    if path not in _SRC_KEYS:
+        try:
+            _SRC_KEYS[path] = {d for c, d in validate.validate(path, None) if c == "record-key-missing-from-list"}
+        except Exception:  # noqa: BLE001
+            _SRC_KEYS[path] = set()
+    return _SRC_KEYS[path]
+
+
 def check_package(path, src_path, what):
     """-> list of (ident, detail)"""
     fails = []
@@ -44,7 +59,10 @@ def check_package(path, src_path, what):
         probs = validate.validate(path, su, sm)
     except Exception as e:  # noqa: BLE001
         return [({"mechanism": "validator", "class": f"package-unreadable-{type(e).__name__}"}, f"{what}: independent reader failed: {type(e).__name__}: {e}")]
+    inherited_keys = source_missing_keys(src_path) if any(c == "record-key-missing-from-list" for c, _ in probs) else set()
     for cls, detail in probs:
+        if cls == "record-key-missing-from-list" and detail in inherited_keys:
+            continue
         fails.append(({"mechanism": "package-invariant", "class": cls}, f"{what}: {detail}"))
     try:
         open_doc(path)
